@@ -71,4 +71,24 @@ theorem qrnaOut_eq (isGap : UInt8 → Bool) (x y : Bytes) (ox oy : Out UInt8) (b
     | separate d => exact Out.load_separate y d (hy d rfl)
   rw [qrnaOut, ex, ey, qrnaOn_self]
 
+/-- status of the whole QRNA call -/
+theorem qrnaCall_status (isGap : UInt8 → Bool) (x y : Bytes) (ox oy : Out UInt8) (base : Nat) (r : Rng) :
+    ((qrnaCall isGap x y ox oy base r).1 = .einval ↔ x.size - 2 * base ≠ y.size - 2 * base) ∧
+    ((qrnaCall isGap x y ox oy base r).1 = .emem ↔ x.size - 2 * base = y.size - 2 * base ∧ x.size - 2 * base = 0) ∧
+    ((qrnaCall isGap x y ox oy base r).1 = .einval ∨ (qrnaCall isGap x y ox oy base r).1 = .emem → (qrnaCall isGap x y ox oy base r).2 = r) ∧
+    (x.size - 2 * base = y.size - 2 * base → x.size - 2 * base ≠ 0 →
+      qrnaCall isGap x y ox oy base r =
+        (.ok (qrnaOut isGap x y ox oy base (x.size - 2 * base) r).1.1 (qrnaOut isGap x y ox oy base (x.size - 2 * base) r).1.2,
+         (qrnaOut isGap x y ox oy base (x.size - 2 * base) r).2)) := by
+  unfold qrnaCall
+  simp only []
+  generalize x.size - 2 * base = Lx
+  generalize y.size - 2 * base = Ly
+  by_cases h1 : Lx = Ly
+  · subst h1
+    by_cases h2 : Lx = 0
+    · subst h2; simp
+    · simp [h2]
+  · simp [h1]
+
 end EaselModel.Shuffle
